@@ -19,6 +19,17 @@ func c19GeneratedLayouts(ctx *h.Ctx) {
 	ctx.RunCases("generated-program-layouts", ctx.N(3000, 150000), func(k *h.Case) {
 		g := spec.NewGen(k.R, prof)
 		prog := g.FullProgram(1 + k.R.IntN(4))
+		if k.R.IntN(3) == 0 {
+			// constant definitions anywhere between the statements: their values end at the next top-level keyword,
+			// not at the end of the line, so they may be laid out over several lines like everything else
+			vals := [][]string{{"3"}, {"A", "+", "B", "-", "1"}, {"type", "=", "MSGBOX_NPC"}, {"Nurse_Text_Heal", ",", "kind", "=", "2"}, {"(", "2", "*", "3", ")"}, {"X", "==", "Y"}}
+			for n := 1 + k.R.IntN(3); n > 0; n-- {
+				c := &spec.Const{ID: prog.NewID(), Name: g.Name("LAYOUT_CONST_"), Value: vals[k.R.IntN(len(vals))]}
+				at := k.R.IntN(len(prog.Items) + 1)
+				prog.Items = append(prog.Items[:at:at], append([]spec.Item{c}, prog.Items[at:]...)...)
+			}
+			k.Count("generated_programs_with_constants", 1)
+		}
 		a := spec.Print(prog)
 		a.Layout(spec.LayoutOpts{})
 		b := spec.Print(prog)
